@@ -32,6 +32,7 @@ Definition gen_meta_inbound : list (string * string) := [].
 Definition gen_submitters : list string := [].
 Definition gen_send_result_deadline_ms : N := 0%%N.
 Definition gen_yield_retry_delay_ms : N := 0%%N.
+Definition gen_yield_retry_keeps_invocation : option bool := Some false.
 Definition gen_queue_makes : list (string * string * string) := [].
 """
 
@@ -105,7 +106,7 @@ def skeleton_report():
     retry_total_ms)."""
     rep = dict(ok=False, error="", obligations={}, bad_client_sends=[], bad_edges=[],
                bad_peer_closes=[], nonconforming=[], uncovered_senders=[], detail="", size=None,
-               retry_total_ms=None)
+               retry_total_ms=None, yield_resume_table={}, yield_keep=None)
     ok, log = common.coq_make(["Conc/Skeleton.vo", "Conc/Stall.vo", "gen/GenSkeleton.vo"], keep_going=True)
     if not ok:
         rep["error"] = "Conc/Skeleton or gen/GenSkeleton does not compile:\n" + log[-2500:]
@@ -133,6 +134,15 @@ def skeleton_report():
     rep["size"] = dict(functions=int(m[0]), operations=int(m[1]), entry_points=int(m[2])) if len(m) == 3 else None
     m = re.search(r"(\d+)", bl[7])
     rep["retry_total_ms"] = int(m.group(1)) if m else None
+    # Conc/YieldRetry.v: resume instant (us) -> (instant the retries end, Delivered | Cancelled)
+    rep["yield_resume_table"] = {
+        int(t): (int(u), w.lower())
+        for t, u, w in re.findall(r"\(\s*(\d+)(?:%N)?,\s*\(\s*(\d+)(?:%N)?,\s*(Delivered|Cancelled|Lost|OutOfFuel)\s*\)\s*\)", out)}
+    try:
+        m = re.search(r"gen_yield_retry_keeps_invocation : option bool := (Some true|Some false|None)\.", open(GEN_V).read())
+        rep["yield_keep"] = m.group(1) if m else None
+    except OSError:
+        pass
     rep["ok"] = True
     return rep
 
